@@ -14,6 +14,7 @@ import os
 
 import extie
 import c02weights
+import c01dag
 import gridlib as gl
 import vlib
 
@@ -92,6 +93,8 @@ def run(res, tier, seed, replay_script=None):
     if replay_script is None:
         # the interpolation weights are the same combination of tensor rules: tensor weights tied exactly (Properties_C02_weights.v)
         c02weights.run(res, tier, seed)
+        # Local Polynomial surpluses: computeDAGup (links, is_complete = choice of the Kronecker path) and levels tied white-box on point sets with and without holes
+        c01dag.run(res, tier, seed)
     ex_break = extie.run(res, PID)      # the exactness tables re-translated from the source, compared with the library and re-proved monotone / bounded
     proof_broken = (not props["ok"]) or bool(res.coverage["forbidden_tokens"])
     drv = vlib.build_driver("tsgdrv")
